@@ -252,6 +252,10 @@ func Tokenize(pw string, ti Indices, entropy float32) (Password, error) {
 		return p, nil
 
 	case FullIndexKind:
+		// after the kind byte, each token takes a (length, type) pair of bytes
+		if len(ti)%2 != 1 {
+			return p, fmt.Errorf("full token index is truncated")
+		}
 		tokens := make([]Token, len(ti)/2)
 
 		prevPos := 0
